@@ -368,6 +368,8 @@ void LibWorld::settle() {
 
 void LibWorld::advance_ms(int64_t ms) { K->advance_ms(ms); tr.ev("adv %lld", (long long)ms); }
 
+void LibWorld::detach_from_loop(DBusConnection *c) { shutdown_connection(c); }
+
 void LibWorld::poke_dispatch(DBusConnection *c) {
   if (dbus_connection_get_dispatch_status(c) == DBUS_DISPATCH_DATA_REMAINS)
     while (!_dbus_loop_queue_dispatch(loop, c)) {}
